@@ -377,6 +377,13 @@ func init() {
 			{"integer-bounded", M{"type": "integer", "minimum": 1, "maximum": 9, "default": 5}, 7},
 			{"number", M{"type": "number", "default": 1.5}, 2.25},
 			{"number-integral-default", M{"type": "number", "default": 2}, 0.5},
+			{"number-huge-default", M{"type": "number", "default": 1e19}, 0.5},
+			{"number-huge-negative-default", M{"type": "number", "default": -1e19}, 0.5},
+			{"number-2^63-default", M{"type": "number", "default": 9223372036854775808.0}, 1.5},
+			{"number-large-exact-default", M{"type": "number", "default": 4503599627370496.0}, 1.5},
+			{"integer-large-default", M{"type": "integer", "default": 4294967296}, 7},
+			{"integer-negative-default", M{"type": "integer", "default": -7}, 7},
+			{"number-tiny-default", M{"type": "number", "default": 0.000001}, 2.5},
 			{"boolean-true", M{"type": "boolean", "default": true}, false},
 			{"string-enum", M{"type": "string", "enum": []any{"red", "green"}, "default": "green"}, "red"},
 			{"untyped-string-enum", M{"enum": []any{"red", "green"}, "default": "green"}, "red"},
